@@ -174,9 +174,10 @@ def plan(tier, ctx):
     for sh, sps in (((-1, -1, -1, 0), (-1, 1, 5, 9)), ((-1, 2, -1, 0), (-1, 4, 11))):
         e, n, c, h = sh
         for sp in sps:
+            # the known finding only concerns a first chunk that ends inside the 10 fixed bytes
             q(qs, "rd_hcrc_field/e%d_n%d_c%d_h%d/%s" % (sh + ("split%d" % sp if sp >= 0 else "oneshot",)), HR, U_RW,
               ["R_GZ_SPEC", "HCRC_FIELD", "EXTRA=%d" % e, "NAMEL=%d" % n, "COMML=%d" % c, "HCRC=0", "TEXT=0"] +
-              (["SPLIT=%d" % sp] if sp >= 0 else []), "rd_hcrc_field", key=K_HCRC)
+              (["SPLIT=%d" % sp] if sp >= 0 else []), "rd_hcrc_field", key=(K_HCRC if 1 <= sp <= 9 else None))
 
     # ------------------------------------------------------------------ zlib reader
     for fd in (0, 1):
@@ -206,14 +207,24 @@ def plan(tier, ctx):
         e, n, c = sh
         hl = gz_hl(e, n, c, 0)
         sps = range(1, hl) if (not quick or sh == (-1, 2, 2)) else sorted({4, 10, 11, hl - 1} & set(range(1, hl)))
+        # optional fields in stream order with their [start, end) offsets
+        fields, pos = [], 10
+        for ln in ((2 + e) if e >= 0 else None, (n + 1) if n >= 0 else None, (c + 1) if c >= 0 else None):
+            if ln is not None:
+                fields.append((pos, pos + ln))
+                pos += ln
         for sp in sps:
+            # known finding (parse state lost between isal_inflate calls): only when the second call resumes inside
+            # an optional field that is followed by another one; every other split must hold and is NOT keyed
+            inside = [i for i, (a, b) in enumerate(fields) if a <= sp < b]
+            affected = bool(inside) and inside[0] < len(fields) - 1
             q(qs, "inflate_hdr_chunked/gzip_e%d_n%d_c%d/split%d" % (sh + (sp,)), HI, U_RW,
               ["I_GZIP", "EXTRA=%d" % e, "NAMEL=%d" % n, "COMML=%d" % c, "SPLIT=%d" % sp], "inflate_hdr_chunked",
-              key=K_INFL_GZ, weight=3)
+              key=(K_INFL_GZ if affected else None), weight=3)
     for fd in (0, 1):
         for sp in range(1, 6 if fd else 2):
             q(qs, "inflate_hdr_chunked/zlib_fdict%d/split%d" % (fd, sp), HI, U_RW, ["I_ZLIB", "FDICT=%d" % fd, "SPLIT=%d" % sp],
-              "inflate_hdr_chunked", key=K_INFL_Z, weight=3)
+              "inflate_hdr_chunked", key=(K_INFL_Z if (fd and sp >= 2) else None), weight=3)
 
     return Plan(
         "C19", "model_checking", qs,
